@@ -93,8 +93,15 @@ func (g *G) l4(v6 bool, maxData int) (util.Message, []byte, uint8, string) {
 	}
 	// any other protocol number: payload kept as raw bytes
 	var proto uint8
+	// numbers that mean something to the *other* family or to a neighbouring
+	// decoder are drawn on purpose: for this library they are opaque payload
+	neighbours := []uint8{protocol.Type_IPv6ICMP, protocol.Type_ICMP, protocol.Type_HBH, protocol.Type_Routing, protocol.Type_Fragment, protocol.Type_TCP, protocol.Type_IGMP, 4, 41, 59, 60, 135, 255}
 	for {
-		proto = g.U8("proto_other")
+		if g.Chance("proto_neighbour", 1, 3) {
+			proto = neighbours[g.Pick("proto_neighbour_which", len(neighbours))]
+		} else {
+			proto = g.U8("proto_other")
+		}
 		if proto == protocol.Type_UDP || (!v6 && proto == protocol.Type_ICMP) {
 			continue
 		}
